@@ -42,6 +42,12 @@ def heval_universe(mod, nodes, edges, mode='ident', name='', stale=(), inputs=No
     return uni
 
 
+def make_universe(mod, nodes, edges, mode='ident', name='', stale=(), inputs=None, built=False):
+    if built:
+        return built_universe(mod, nodes, edges, mode, name=name)
+    return heval_universe(mod, nodes, edges, mode, name=name, stale=stale, inputs=inputs)
+
+
 def all_dags(n):
     """every edge subset over a fixed topological order (as the author's enumeration binaries do)"""
     pairs = [(a, b) for a in range(n) for b in range(a + 1, n)]
@@ -53,3 +59,88 @@ def all_instances(n):
     for edges in all_dags(n):
         for kinds in itertools.product(KINDS, repeat=n):
             yield [(NAMES[i], kinds[i]) for i in range(n)], edges
+
+
+def built_universe(mod, nodes, edges, mode='ident', name=''):
+    """H-BUILT: the project was built completely and successfully before (every record present and consistent with
+    the current graph); since then any result file may have been deleted (symbolic present-set) and every job that
+    executes reports a fresh symbolic output (so "changed or not", per comparison, is decided by the solver).
+    Cheap enough for 5-7 job graphs, where the full symbolic history of H-EVAL is out of reach."""
+    hist = {}
+    present = {}
+    ups = {n: [] for n, _ in nodes}
+    for d, u in edges:
+        ups[d].append(u)
+    for j, k in nodes:
+        hist[j] = (Out(('h', j)), True)
+        hist[j + '!!!'] = ('\n'.join(sorted(ups[j], key=lambda s: s.encode())), True)
+        if k == 'Output':
+            present[j] = ('present', j)
+    for d, u in edges:
+        hist['%s!!!%s' % (u, d)] = (Out(('h', u)), True)
+    uni = Universe(mod, nodes, edges, mode, hist, present, name=name)
+    uni.built = True
+    return uni
+
+
+def random_instance(rng, n, p_edge=0.35, weights=(0.2, 0.35, 0.45)):
+    """random DAG on n jobs over a fixed topological order with a bias towards Ephemeral-rich, connected shapes"""
+    while True:
+        kinds = rng.choices(KINDS, weights=weights, k=n)
+        names = ['J%d' % i for i in range(n)]
+        edges = []
+        deg = [0] * n
+        for a in range(n):
+            for b in range(a + 1, n):
+                if rng.random() < p_edge:
+                    edges.append((names[b], names[a]))
+                    deg[a] += 1
+                    deg[b] += 1
+        if min(deg) == 0:
+            continue
+        if sum(1 for k in kinds if k == 'Ephemeral') < 2:
+            continue
+        rng.shuffle(edges)
+        return [(names[i], kinds[i]) for i in range(n)], edges
+
+
+def chain_family(max_nodes=7):
+    """Shapes built around one dependency chain c1 -> c2 -> ... -> cL (L = 2..4; inner links Ephemeral or Output, the last
+    one Output or Always), where every link may additionally have
+       a side consumer (an Output job), the side consumer optionally with a trigger of its own,
+       or a trigger feeding the link itself (an extra upstream that is executed: Always, or an Output whose result may be missing).
+    These are the situations the engine's on-demand logic is about: Ephemerals that are needed late (a trigger's output
+    changes after the Ephemeral was judged unnecessary), validly skipped Outputs sitting between a failing Ephemeral and
+    jobs further down, cleanup with several consumers.  Deterministic enumeration; yields (nodes, edges)."""
+    out = []
+    side_opts = ['-', 's', 'st', 't']
+    for L in (2, 3, 4):
+        for inner in itertools.product(['Ephemeral', 'Output'], repeat=L - 1):
+            for last in ('Output', 'Always'):
+                kinds = list(inner) + [last]
+                if 'Ephemeral' not in kinds:
+                    continue
+                for sides in itertools.product(side_opts, repeat=L):
+                    if sides[-1] in ('s', 'st'):
+                        continue        # a consumer of the last link is just a longer chain
+                    n = L + sum({'-': 0, 's': 1, 'st': 2, 't': 1}[s] for s in sides)
+                    if n > max_nodes or n < 4:
+                        continue
+                    for tk in ('Always', 'Output'):
+                        if tk == 'Output' and not any('t' in s for s in sides):
+                            continue
+                        nodes = [('c%d' % (i + 1), kinds[i]) for i in range(L)]
+                        edges = [('c%d' % (i + 1), 'c%d' % i) for i in range(1, L)]
+                        for i, s in enumerate(sides):
+                            c = 'c%d' % (i + 1)
+                            if s == 't':
+                                nodes.append(('t%d' % (i + 1), tk))
+                                edges.append((c, 't%d' % (i + 1)))
+                            elif s in ('s', 'st'):
+                                nodes.append(('s%d' % (i + 1), 'Output'))
+                                edges.append(('s%d' % (i + 1), c))
+                                if s == 'st':
+                                    nodes.append(('u%d' % (i + 1), tk))
+                                    edges.append(('s%d' % (i + 1), 'u%d' % (i + 1)))
+                        out.append((nodes, edges))
+    return out
